@@ -69,17 +69,27 @@ func runStress(args []string) {
 
 // execCallInputs is execCall with preloaded inputs and no watchdog goroutine
 // (so that the race detector sees the decoder on the caller's goroutine).
-func execCallInputs(p *Profile, ap *apiPool, h histCall, inputs map[int][]byte) callResult {
-	res := callResult{Key: h.key(), G: h.G}
+func execCallInputs(p *Profile, ap *apiPool, h histCall, inputs map[int][]byte) (res callResult) {
+	res = callResult{Key: h.key(), G: h.G}
+	defer func() {
+		// a call that panics under concurrency returns something else than when it runs alone
+		if x := recover(); x != nil {
+			res.Digest = digest(map[string]interface{}{"panic": fmt.Sprint(x)})
+		}
+	}()
 	switch h.API {
 	case "decode", "chained", "integrity":
 		in := inputs[h.Idx]
 		var files []*FileProj
 		errv, consumed := 0, 0
 		r := newScripted(in, nil)
+		opts := []fit.DecodeOption{sharedUF, sharedUM}
+		if h.G%2 == 0 {
+			opts = append(opts, fit.WithLogger(nullLogger{})) // every other goroutine also asks for debug output
+		}
 		switch h.API {
 		case "decode":
-			f, err := fit.Decode(r, sharedUF, sharedUM)
+			f, err := fit.Decode(r, opts...)
 			if f != nil {
 				files = append(files, p.projFile(f))
 			}
@@ -87,7 +97,7 @@ func execCallInputs(p *Profile, ap *apiPool, h histCall, inputs map[int][]byte) 
 				errv = 1
 			}
 		case "chained":
-			fs, err := fit.DecodeChained(r, sharedUF, sharedUM)
+			fs, err := fit.DecodeChained(r, opts...)
 			for _, f := range fs {
 				files = append(files, p.projFile(f))
 			}
